@@ -1332,9 +1332,12 @@ def check_C21(rep):
     rng = rep.rng
     jobs = []
     sim_cfg = tlc.render_cfg(_cfg("MCFrameNum.cfg.tmpl"),
-                             {"Frames": TlaSet([0, 1, 2, 0x3FF, 0x400, 0x7FE, 0x7FF]), "CrcFlips": TlaSet([1, 2, 3, 4, 5]),
+                             {"Frames": TlaSet([0, 1, 0x3FF, 0x7FF]) if quick else TlaSet([0, 1, 2, 0x3FF, 0x400, 0x7FE, 0x7FF]),
+                              "CrcFlips": TlaSet([1, 3, 5]) if quick else TlaSet([1, 2, 3, 4, 5]),
                               "InitMicros": TlaSet([0]), "MaxSofs": 1000})
-    behs = tlc.simulate(SPEC_DIR, "MCFrameNum", sim_cfg, num=30 if quick else 300, depth=70, seed=rep.seed, timeout=1200)
+    # (every simulation step enumerates all ~35..70 successor packets, each with several bit-serial CRC5s)
+    behs = tlc.simulate(SPEC_DIR, "MCFrameNum", sim_cfg, num=10 if quick else 200, depth=50 if quick else 70,
+                        seed=rep.seed, timeout=1200)
     for b in behs:
         events = [{"bytes": list(st["ev"]["bytes"]), "gap_prob": 0.2, "idle": 6} for _, st in b[1:]]
         jobs.append((events, "tlc-simulate", None))
